@@ -190,12 +190,22 @@ def _worker_call(args):
     fn_mod, fn_name, case, limit = args
     import importlib
     fn = getattr(importlib.import_module(fn_mod), fn_name)
+    # the limit is on the process's CPU time (independent of the machine's load); a wall-clock alarm six times
+    # longer is the backstop for a worker blocked outside Python
     signal.signal(signal.SIGALRM, _alarm)
-    signal.alarm(limit)
+    signal.signal(signal.SIGPROF, _alarm)
+    signal.setitimer(signal.ITIMER_PROF, limit)
+    signal.alarm(6 * limit)
     try:
         return ('ok', fn(case))
-    except CaseTimeout:
-        return ('timeout', None)
+    except CaseTimeout as exc:
+        # where was the code when the watchdog fired: innermost weasyprint frame, and whether columns_layout
+        # (the listed non-terminating mechanism) is on the stack
+        tb = traceback.extract_tb(exc.__traceback__)
+        wp = [fr for fr in tb if '/weasyprint/' in fr.filename]
+        site = (os.path.relpath(wp[-1].filename, REPO), wp[-1].name) if wp else None
+        names = [fr.name for fr in wp]
+        return ('timeout', {'site': site, 'stack': names[-25:], 'functions': sorted(set(names))})
     except BaseException as exc:   # noqa
         tb = traceback.extract_tb(exc.__traceback__)
         site = None
@@ -206,6 +216,7 @@ def _worker_call(args):
         return ('exc', {'type': type(exc).__name__, 'msg': str(exc)[:300], 'site': site,
                         'tb': ''.join(traceback.format_exception(type(exc), exc, exc.__traceback__))[-1500:]})
     finally:
+        signal.setitimer(signal.ITIMER_PROF, 0)
         signal.alarm(0)
 
 
@@ -216,6 +227,15 @@ def run_impl(fn_mod, fn_name, cases, limit=30, chunksize=8):
         return []
     with multiprocessing.Pool(NCPU, initializer=_worker_init) as pool:
         return pool.map(_worker_call, [(fn_mod, fn_name, c, limit) for c in cases], chunksize=chunksize)
+
+
+def timeout_signature(o):
+    """signature of a watchdog time-out: the listed non-terminating mechanism (columns_layout on the stack) or the
+    innermost weasyprint function that was running"""
+    o = o or {}
+    if 'columns_layout' in (o.get('functions') or o.get('stack') or ()):
+        return 'timeout:columns_layout'
+    return 'timeout:%s' % (tuple(o['site']) if o.get('site') else None,)
 
 
 # ------------------------------------------------------------------------------------- findings, evidence
